@@ -321,7 +321,7 @@ func c16r4(w *World, rr *RuleRun) {
 	eachInstr(w.P.LibFuncs, func(fn *ssa.Function, ins ssa.Instruction) {
 		if s, ok := ins.(*ssa.Send); ok && hasFieldAnywhere(w.TS.Of(s.Chan), peersF) {
 			n++
-			rr.At(w, ins, "responses are delivered through a select that can only be abandoned on Stopped", false, "bare send on Announce.Peers (blocks forever if the consumer is gone, or loses the stop signal)")
+			rr.At(w, ins, "responses are delivered through a select that can only be abandoned when the announce is closed", false, "bare send on Announce.Peers (blocks forever if the consumer is gone, or loses the stop signal)")
 		}
 		sel, ok := ins.(*ssa.Select)
 		if !ok {
@@ -344,12 +344,21 @@ func c16r4(w *World, rr *RuleRun) {
 				continue
 			}
 			ch := w.TS.Of(st.Chan)
-			if !(st.Dir == types.RecvOnly && ch.Op == OpCall && suffixName(ch) == "Stopped" && hasFieldAnywhere(ch, travF)) {
+			switch {
+			case st.Dir == types.RecvOnly && w.isCloseEventDone(ch, true):
+				// the announce's own close event: set only by Close(), which also stops the lookup
+			case st.Dir == types.RecvOnly && w.isOwnQueryCtxDone(ch, fn):
+				okAlt = false
+				det += "; the other case is the query context, which the lookup cancels as soon as it starts stopping: StopTraversing (or the natural stop after stalling) would drop a response already received although the consumer is still reading"
+			case st.Dir == types.RecvOnly && ch.Op == OpCall && suffixName(ch) == "Stopped" && hasFieldAnywhere(ch, travF):
+				okAlt = false
+				det += "; the other case waits for the traversal to have STOPPED, which cannot happen while this query - the one making the delivery - is still in flight: Close/StopTraversing with an unread Peers channel strands the delivery, the stop goroutine and the completion goroutine, and Peers is never closed"
+			default:
 				okAlt = false
 				det += "; other case waits on " + trunc(ch.String(), 100)
 			}
 		}
-		rr.At(w, ins, "a received response is delivered unless the traversal has stopped (no default, no timeout, no other way out)", okAlt, det)
+		rr.At(w, ins, "a received response is delivered unless the announce is closed (the only other case is the close event; no default, no timeout)", okAlt, det)
 		// the delivered value: NodeInfo{addr, r.ID}, Peers r.Values, Return *r
 		v := sel.States[sendIdx].Send
 		if al := allocOfLoad(v); al != nil {
@@ -471,4 +480,76 @@ func (w *World) checkWaitGroupStarts(rr *RuleRun, root *ssa.Function) int {
 		}
 	}
 	return n
+}
+
+// isOwnQueryCtxDone: ch is Done() of the context.Context parameter of fn (or of the function fn was
+// extracted from), and that function is installed as a traversal's DoQuery callback.
+func (w *World) isOwnQueryCtxDone(ch *Term, fn *ssa.Function) bool {
+	if ch.Op != OpCall || suffixName(ch) != "Done" || len(ch.Args) != 1 || ch.Args[0].Op != OpParam {
+		return false
+	}
+	p, ok := ch.Args[0].Obj.(*ssa.Parameter)
+	if !ok || !strings.HasSuffix(p.Type().String(), "context.Context") {
+		return false
+	}
+	t := w.trav()
+	var cbs []*ssa.Function
+	for _, cb := range w.CG.FieldFuncs(t.doQuery) {
+		cbs = append(cbs, cb)
+		if cb.Synthetic != "" {
+			// bound-method / thunk wrapper: the real callback is what it calls
+			for _, e := range w.CG.Out[cb] {
+				cbs = append(cbs, e.Callee)
+			}
+		}
+	}
+	for _, cb := range cbs {
+		if p.Parent() == cb && (fn == cb || w.withinUp(fn, cb)) {
+			return true
+		}
+	}
+	return false
+}
+
+// isCloseEventDone: ch is Done() of a chansync.SetOnce field every Set() of which sits in a
+// function that also stops a traversal (so when it fires, the lookup is stopping and cannot be
+// left waiting); with notOnStop, additionally no Set() site is in a function that only stops the
+// traversal without closing (StopTraversing), i.e. the event means "the consumer is done".
+func (w *World) isCloseEventDone(ch *Term, consumerDone bool) bool {
+	if ch.Op != OpCall || suffixName(ch) != "Done" || !strings.Contains(ch.Name, "SetOnce") || len(ch.Args) != 1 {
+		return false
+	}
+	at := ch.Args[0]
+	if at.Op != OpAddr || len(at.Args) != 1 || at.Args[0].Op != OpField {
+		return false
+	}
+	fv, _ := at.Args[0].Obj.(*types.Var)
+	if fv == nil {
+		return false
+	}
+	stop := w.P.Func("(*traversal.Operation).Stop")
+	nSet := 0
+	ok := true
+	eachInstr(w.P.LibFuncs, func(fn *ssa.Function, ins ssa.Instruction) {
+		c := callInstrCommon(ins)
+		if c == nil {
+			return
+		}
+		o := calleeObj(c)
+		if o == nil || o.Name() != "Set" || recvNamed(o) != "SetOnce" || len(c.Args) == 0 {
+			return
+		}
+		rt := w.TS.Of(c.Args[0])
+		if !(rt.Op == OpAddr && len(rt.Args) == 1 && isFieldTerm(rt.Args[0], fv)) {
+			return
+		}
+		nSet++
+		// the setting function stops the traversal too
+		r := w.CG.Reach([]*ssa.Function{enclosingNamed(fn)}, func(e *Edge) bool { return w.P.IsLib(e.Callee) && e.Mode == ModeSync })
+		if _, stops := r[stop]; !stops {
+			ok = false
+		}
+	})
+	_ = consumerDone
+	return ok && nSet > 0
 }
